@@ -1174,7 +1174,17 @@ pub fn child18(seed: u64, idx: u64) -> Value {
                 } else {
                     let qorder = if rng.chance(2, 3) { wl.clamp(0, 32) } else { 1 + rng.usize_below(24) };
                     let precision = *rng.pick(&[0usize, 1, 5, 12, 15]);
-                    let coefs: Vec<i16> = (0..qorder).map(|_| rng.range(-(1 << 11), (1 << 11) - 1) as i16).collect();
+                    let mut coefs: Vec<i16> = (0..qorder).map(|_| rng.range(-(1 << 11), (1 << 11) - 1) as i16).collect();
+                    // zero taps (last ones / first ones / all): legal, and what another encoder's
+                    // stream may hold although this library's quantiser trims them
+                    if qorder > 0 && rng.chance(1, 3) {
+                        let k = 1 + rng.usize_below(qorder);
+                        match rng.usize_below(3) {
+                            0 => coefs[qorder - k..].fill(0),
+                            1 => coefs[..k].fill(0),
+                            _ => coefs.fill(0),
+                        }
+                    }
                     let Ok(qp) = QuantizedParameters::new(&coefs, qorder, *rng.pick(&[0i8, 3, 10, 15]), precision) else {
                         desc = "parameters refused".to_string();
                         return;
